@@ -122,6 +122,25 @@ def construct(m, meta):
                             res = None; err = type(e).__name__
                         if (res is not None) != related:
                             bad += 1; problems.append((name, "classes related:", related, "result:", err or repr(res), repr(x), repr(r)))
+                        elif res is not None:
+                            # ... the set of the more derived class: defaults, overlaid with everything the set holds, overlaid with
+                            # the namespace (which takes precedence in both orders)
+                            T = X if issubclass(X, R) else R
+                            d = {A: (0, 0) for A in anc(T)}
+                            d.update(snapshot(r)[1])
+                            d[X] = (x.a, x.b)
+                            if snapshot(res) != (T, d):
+                                bad += 1; problems.append((name, repr(x), repr(r), "gives", repr(snapshot(res)), "expected", repr((T, d))))
+            # update(render_cls, **fields): only the named fields of that class change - every other namespace the set holds stays
+            if r is not None:
+                for A in anc(r.render_cls):
+                    for fields in ({"a": 1 - r[A].a}, {"b": 1 - r[A].b}, {"a": 1, "b": 1}):
+                        res = r.update(A, **fields)
+                        d = dict(snapshot(r)[1])
+                        d[A] = (fields.get("a", r[A].a), fields.get("b", r[A].b))
+                        if snapshot(res) != (r.render_cls, d):
+                            bad += 1; problems.append(("update(cls, **fields)", repr(r), A.__name__, fields, "gives", repr(snapshot(res)), "expected", repr((r.render_cls, d))))
+                            break
             # a namespace subclass that inherits fields and association: equal to its parent's instance, hence the same hash
             if nss:
                 x = nss[-1]
